@@ -43,6 +43,12 @@ int rc_verify(const vk_t *k, jwt_alg_t alg, const void *msg, size_t n, const uns
 /* is (alg, key) inside the family / size rules of C02 + C09 (RSA >= 2048, EC size match, Ed25519/Ed448) */
 int rc_key_admissible(const vk_t *k, jwt_alg_t alg);
 
+/* count libcrypto allocations too (call first thing in main, before any OpenSSL use); returns 1 if installed */
+int rc_track_alloc(void);
+long rc_alloc_live(void);
+/* live blocks of libjwt+jansson (vf allocator) plus libcrypto (when tracked) */
+long vk_live(void);
+
 /* deterministic RNG for libcrypto (ECDSA / PSS nonces); reseed at the start of every case */
 void rc_rng_install(void);
 void rc_rng_reseed(uint64_t seed);
